@@ -14,11 +14,12 @@ PROPS = ("C01", "C07", "C08", "C10", "C11", "C19", "C20")
 PLAN = {
     "C07": dict(modes={"quick": [("match", 12, 40)], "thorough": [("match", 120, 60)]},
                 mc={"quick": [("match", 4, {})], "thorough": [("match", 6, {})]}),
-    "C08": dict(modes={"quick": [("dispatch", 16, 40)], "thorough": [("dispatch", 200, 60)]},
+    "C08": dict(modes={"quick": [("dispatch", 16, 40), ("net", 4, 40)], "thorough": [("dispatch", 200, 60), ("net", 48, 60)]},
                 mc={"quick": [("dispatch", 3, {})], "thorough": [("dispatch", 4, {}), ("dispatch", 3, {"Passive": "TRUE"})]}),
-    "C10": dict(modes={"quick": [("tokens", 16, 40), ("dispatch", 6, 40)], "thorough": [("tokens", 200, 60), ("dispatch", 60, 60)]},
+    "C10": dict(modes={"quick": [("tokens", 16, 40), ("dispatch", 6, 40), ("net", 4, 40)],
+                       "thorough": [("tokens", 200, 60), ("dispatch", 60, 60), ("net", 48, 60)]},
                 mc={"quick": [("tokens", 3, {})], "thorough": [("tokens", 4, {})]}),
-    "C11": dict(modes={"quick": [("peers", 16, 50)], "thorough": [("peers", 200, 80)]},
+    "C11": dict(modes={"quick": [("peers", 16, 50), ("net", 4, 40)], "thorough": [("peers", 200, 80), ("net", 48, 60)]},
                 mc={"quick": [("peers", 3, {})], "thorough": [("peers", 4, {})]}),
     "C19": dict(modes={"quick": [("block", 16, 40)], "thorough": [("block", 200, 60)]},
                 mc={"quick": [("block", 3, {}), ("block", 3, {"Passive": "TRUE"})],
@@ -99,7 +100,8 @@ def run(prop, tier, seed, replay=None):
                 raise vlib.Inconclusive("driver srv -mode %s failed (rc=%s): %s" % (mode, rc, (se or "")[-3000:]))
         tv = None
         if os.path.exists(out) and os.path.getsize(out) > 0:
-            tv = vlib.validate_trace("Trace_KrpcServer", (trace_cfg(prop), None), out, {"Inv" + prop: [prop]}, timeout=1500)
+            module = "Trace_KrpcNet" if mode == "net" else "Trace_KrpcServer"
+            tv = vlib.validate_trace(module, (trace_cfg(prop), None), out, {"Inv" + prop: [prop]}, timeout=1500)
         return job, out, crash, tv
 
     with ThreadPoolExecutor(max_workers=min(len(jobs), max(1, vlib.NCPU // 2))) as ex:
